@@ -496,3 +496,16 @@ PROPS["C06"]["level_text"] = (
     "absent / empty / proper prefix / one character short / extended / other case / wrong / right) against the real S2M and M2S dispatchers, with a "
     "recording modulator and the private-payload channel watching for effects.")
 PROPS["C06"]["rule"] = SRV_RULE + "; links suite: per case one link type and configured secret, 2-5 connections, 2-6 frames each"
+
+
+# slow consumers behind small pipes + a flooding publisher + a small message pool (oracle-only): backlog delivered or receiver closed,
+# everybody else still served (D25 regression; residual finding: writers that hold a whole batch while blocked starve the others)
+PRESSURE = {"kind": "oracle", "nvh_suite": "pressure", "cases": {"quick": 40, "thorough": 2000}}
+for _p in ("C15", "C13", "C02"):
+    PROPS[_p]["suites"]["pressure"] = dict(PRESSURE, oracle_tags=[_p])
+PROPS["C15"]["level_note"] = (
+    "Known findings: `slow-consumers-starve-others` — a writer blocked inside a socket write keeps its whole batch (up to 128 message-pool "
+    "buffers); two members that stop reading with long queues can empty the pool, and then no other connection's replies are written until "
+    "they read again (replayed by the pressure suite on every run); and DESIGN D21: such a writer never polls its close branch, so the "
+    "slow consumer is not disconnected when its queue overflows until it reads again. Repaired: the permanent variant (writers holding partial "
+    "batches waiting for each other for ever, DESIGN D25) — see known_findings.txt.")
